@@ -25,7 +25,7 @@ MODULES = [
         "alignZAxisWithTargetDir_zero_target", "alignZAxisWithTargetDir_zero_up", "alignZAxisWithTargetDir_up_default",
         "alignZAxisWithTargetDir_parallel", "rotationMatrixWithUpDir_eq_alignZ", "rotationMatrixWithUpDir_frame", "rotationMatrixWithUpDir_frames",
         "rotationMatrixWithUpDir_up", "rotationMatrixWithUpDir_zero_from"]),
-    ("ImathVerif.Props.C09Next", ["nextFrame_eq", "nextFrame_frame", "nextFrame_tangent", "nextFrame_tangents_out"]),
+    ("ImathVerif.Props.C09Next", ["nextFrame_eq", "nextFrame_frame", "nextFrame_tangent", "nextFrame_xrow", "nextFrame_tangents_out"]),
     ("ImathVerif.Props.C09Quat", [
         "quatSetRotation_spec", "quatToMatrix44_spec", "rotationMatrix_spec", "rotationMatrix_acute", "rotationMatrix_opposite",
         "rotationMatrix_nearOpposite", "rotationMatrix_obtuse", "rotationMatrix_frame", "rotationMatrix_carries"]),
@@ -239,6 +239,47 @@ def run_residue(chk, binary, n):
     return rc, out
 
 
+DRIFT_OBL = ("residue-drift: every measured maximum stays within 1.5 x its clean-tree calibration + 1 eps (harness/corr/c09_residue_cal.json; "
+             "the bounds coded in the harness are 4-12 x the maxima, a change costing 2-3 bits in one builder would stay inside them)")
+
+
+def drift(chk, worst, already_failed):
+    """worst: {"<check>[<magnitude class>]:<type>": max error/eps}.  A check that already violates its coded bound is reported there."""
+    import json
+    try:
+        cal = json.load(open(os.path.join(lib.VERIF, "harness", "corr", "c09_residue_cal.json")))["calibrated"]
+    except Exception as ex:
+        chk.oblige(DRIFT_OBL, "residue", False, "calibration file unreadable: %r" % ex)
+        chk.fail(DRIFT_OBL, "residue-drift:calibration-file", "harness/corr/c09_residue_cal.json is missing or unreadable", {}, False)
+        return
+    over, uncal, seen_base = [], [], set()
+    for k, v in sorted(worst.items()):
+        name, ty = k.rsplit(":", 1)
+        base = re.sub(r"\[(huge|tiny)-magnitudes\]", "", name)
+        seen_base.add(base)
+        if (base, ty) in already_failed:
+            continue
+        if base not in cal:
+            uncal.append(k)
+            continue
+        ceil = 1.5 * cal[base] + 1.0
+        if not (v <= ceil):
+            over.append((k, v, cal[base], ceil))
+    never = sorted(b for b in cal if b not in seen_base)
+    ok = not over and not uncal and not never
+    chk.oblige(DRIFT_OBL, "residue", ok,
+               {"checks_compared": len(worst), "calibrated_checks": len(cal)} if ok else
+               {"over": ["%s: %.3g > %.3g (calibrated %.3g)" % o for o in over][:10], "uncalibrated": uncal[:10], "calibrated_but_not_measured": never[:10]})
+    for k, v, c, ceil in over[:12]:
+        chk.fail(DRIFT_OBL, "residue-drift:" + k, "%s: measured maximum %.3g eps exceeds the drift ceiling %.3g (clean-tree maximum %.3g); still inside "
+                 "the coded bound — rounding behaviour of this builder changed" % (k, v, ceil, c), {"check": k, "measured": v, "calibrated": c}, False)
+    for k in uncal[:12]:
+        chk.fail(DRIFT_OBL, "residue-drift:uncalibrated:" + k, "residue check %s has no calibrated maximum" % k, {"check": k}, False)
+    for b in never[:12]:
+        chk.fail(DRIFT_OBL, "residue-drift:not-measured:" + b, "calibrated residue check %s was not evaluated in this run (a check was removed "
+                 "or its input class is no longer generated)" % b, {"check": b}, False)
+
+
 MAG_FUNCS = ["alignZAxisWithTargetDir", "rotationMatrixWithUpDir", "rotationMatrix", "computeLocalFrame", "firstFrame", "lastFrame", "nextFrame"]
 MAG_CLASSES = ["huge-magnitudes", "tiny-magnitudes"]
 
@@ -278,16 +319,24 @@ def residue(chk, binary, n, state):
                                "oracle": "long double (64-bit mantissa) evaluation of the documented formulae from the same T-valued inputs"}
     # the arms of Quat::setRotation reached by the rotationMatrix pairs (the (8 eps)^2 fallback with f0 + t0 != 0 only through `nearly-opposite`)
     arms = dict((k.split(":", 1)[1], v) for k, v in hits.items() if k.startswith("rotationMatrix-arm:"))
-    need = ["acute", "obtuse-split", "opposite-fallback"]
-    chk.oblige("reach: residue pairs take every arm of Quat::setRotation (acute / obtuse split / opposite fallback) and every direction-pair class",
-               "reach", all(arms.get(a, 0) >= 20 for a in need) and sum(1 for k in hits if k.startswith("directions:")) == 13,
-               {"arms": arms, "classes": dict((k, v) for k, v in hits.items() if k.startswith("directions:"))})
-    if not all(arms.get(a, 0) >= 20 for a in need):
+    # floors: measured 1600-3400 (acute / split), ~970 (fallback incl. exactly opposite lattice pairs), 87-125 per element type for the
+    # THRESHOLD branch proper (fallback taken although f0 + t0 != 0: only class `nearly-opposite` reaches it, at angles pi - few eps)
+    need = {"acute": 500, "obtuse-split": 500, "opposite-fallback": 200,
+            "opposite-fallback(f0+t0!=0):float": 40, "opposite-fallback(f0+t0!=0):double": 40}
+    scale = (7 if chk.thorough else 1)
+    arms_ok = all(arms.get(a, 0) >= f * scale for a, f in need.items())
+    chk.oblige("reach: residue pairs take every arm of Quat::setRotation (acute / obtuse split / opposite fallback, and — separately, per element "
+               "type — the (8 eps)^2 threshold fallback with f0 + t0 != 0) and every direction-pair class",
+               "reach", arms_ok and sum(1 for k in hits if k.startswith("directions:")) == 13,
+               {"arms": arms, "floors": dict((a, f * scale) for a, f in need.items()),
+                "classes": dict((k, v) for k, v in hits.items() if k.startswith("directions:"))})
+    if not arms_ok:
         chk.fail("reach: residue pairs", "residue:reach:setRotation-arms", "a branch of Quat::setRotation is no longer reached by the residue generator",
                  {"arms": arms}, False)
     fail_lines = [l for l in out.split("\n") if l.startswith("RESIDUE-FAIL")]
-    parsed = [re.match(r"RESIDUE-FAIL ([^:]+):([^:]+):(\w+) (err/eps=\S+ > \S+) in=(.*)", l) for l in fail_lines]
+    parsed = [re.match(r"RESIDUE-FAIL (.+):([^:]+):(float|double) (err/eps=\S+ > \S+) in=(.*)", l) for l in fail_lines]
     parsed = [mm.groups() for mm in parsed if mm]
+    drift(chk, worst, set((g[0], g[2]) for g in parsed))
     # ---- magnitude classes: one obligation per function, one key per (function, class)
     for fn in MAG_FUNCS:
         accs = dict((k, v) for k, v in cls_acc.items() if k[0] == fn)
@@ -304,11 +353,18 @@ def residue(chk, binary, n, state):
             if not bad:
                 continue
             ex = [g for g in parsed if g[0].split(".")[0] == fn and g[1] == c]
-            chk.fail(mag_obligation(fn), "c09_residue:%s:%s" % (fn, c),
-                     "%s on direction arguments of %s length: result not finite / not orthonormal / wrong axes in %s" %
-                     (fn, c.split("-")[0], ", ".join("%d of %d %s evaluations" % (v[1], v[0], t) for t, v in bad)),
-                     {"function": fn, "input_class": c, "failing_checks": sorted(set(g[0] + ":" + g[2] for g in ex)),
-                      "examples": [{"check": g[0], "element_type": g[2], "error": g[3], "input": g[4]} for g in ex[:4]]}, True)
+            # one key per (CHECK, class) — element types merged — so that an open finding about, say, `.finite` at huge lengths cannot
+            # swallow a new defect of another kind (wrong axis, lost orthonormality) in the same function and class (audit r2 N5);
+            # the harness prints at most 2 lines per (check, class, type), so every failing check appears here
+            whats = sorted(set(g[0] for g in ex)) or [fn + ".(unattributed)"]
+            for w in whats:
+                exw = [g for g in ex if g[0] == w]
+                chk.fail(mag_obligation(fn), "c09_residue:%s:%s" % (w, c),
+                         "%s on direction arguments of %s length fails in %s (all checks of %s in this class: %s)" %
+                         (w, c.split("-")[0], ", ".join(sorted(set(g[2] for g in exw))) or "?", fn,
+                          ", ".join("%d of %d %s evaluations" % (v[1], v[0], t) for t, v in bad)),
+                         {"function": fn, "check": w, "input_class": c,
+                          "examples": [{"element_type": g[2], "error": g[3], "input": g[4]} for g in exw[:4]]}, True)
     # ---- ordinary classes
     seen = set()
     for what, cls, ty, err, inp in parsed:
@@ -353,13 +409,13 @@ def tv_reach(chk):
 
 
 NOEXCEPT_OBL = ("shipped build (ImathConfig.h defaults, IMATH_NOEXCEPT not overridden): on their degenerate inputs the frame builders do what the "
-                "model says — a Gen `.error domainError` leaf (firstFrame, pi = pj; theorem firstFrame_coincident) is a std::domain_error that "
+                "model says (probed for an exception: exactly the entries with an `.error` leaf) — a Gen `.error domainError` leaf (firstFrame, pi = pj; theorem firstFrame_coincident) is a std::domain_error that "
                 "REACHES THE CALLER, every `.ok` leaf returns a finite matrix; observed per call in a fork()ed child (value / exception / std::terminate)")
 
 
-def noexcept_probe(chk):
-    """The extractor TU empties IMATH_NOEXCEPT to enumerate firstFrame's throwing path; this harness is compiled like user code and observes
-    what the real build does there."""
+def noexcept_probe(chk, throwing=None):
+    """Observes what the shipped build (noexcept configuration on) does on the degenerate inputs of the frame builders, in particular on the
+    path that is a `.error` leaf of the model (firstFrame, pi = pj).  (The extractor no longer overrides IMATH_NOEXCEPT.)"""
     ok, binary, out = lib.cxx_build("c09_noexcept", ["corr/c09_noexcept.cpp"])
     chk.oblige("build:c09_noexcept", "build", ok, None if ok else out[-1500:])
     if not ok:
@@ -371,7 +427,16 @@ def noexcept_probe(chk):
     m = re.search(r"NOEXCEPT-SUMMARY probes=(\d+) failures=(\d+) noexcept_macro=(.*)", out)
     good = m is not None and len(probes) == int(m.group(1)) and len(probes) >= 30 and m.group(3).strip() == "noexcept"
     bad = [p for p in probes if p[5] != "OK"]
-    chk.oblige(NOEXCEPT_OBL, "correspondence", good and not bad and rc == 0,
+    # tie between the model and the hand list of probes: the extracted entries that HAVE an `.error` leaf are exactly the functions the
+    # harness expects an exception from (a new throwing path in another builder must get a probe)
+    probed_throw = sorted(set(p[0] for p in probes if p[3].startswith("threw")))
+    model_throw = sorted(set(n.split(".")[-1] for n in (throwing or []))) if throwing is not None else None
+    tie_ok = model_throw is None or model_throw == probed_throw
+    chk.extra["noexcept_tie"] = {"entries_with_error_leaves_in_Gen": model_throw, "functions_probed_for_an_exception": probed_throw}
+    if not tie_ok:
+        chk.fail(NOEXCEPT_OBL, "c09_noexcept:probe-list", "the extracted entries with an `.error` leaf (%s) are not the functions the noexcept harness "
+                 "probes for an exception (%s)" % (model_throw, probed_throw), {"model": model_throw, "probed": probed_throw}, False)
+    chk.oblige(NOEXCEPT_OBL, "correspondence", good and not bad and rc == 0 and tie_ok,
                None if good and not bad else {"failed_probes": ["%s:%s:%s expected %s, observed %s" % p[:5] for p in bad][:8], "summary": m.group(0) if m else out[-400:]})
     chk.count(len(probes), len(probes))
     chk.extra["noexcept_probes"] = {"probes": len(probes), "failed": len(bad), "IMATH_NOEXCEPT_expands_to": m.group(3).strip() if m else None,
@@ -396,7 +461,7 @@ def run(chk):
     chk.trusted = ["Lean 4.33 kernel; axioms propext/Classical.choice/Quot.sound at most",
                    "Mathlib's Matrix.mul / det / transpose / vecMul, Real.sin/cos/arccos/sqrt (only in the non-vacuity examples)",
                    "translator harness/sym, validated each run by TV (bitwise at float and double for EVERY entry, nextFrame included; "
-                   "emitted Lean text at Rat for the entries without opaque calls)",
+                   "emitted Lean text at Rat for every entry of both tags)",
                    "Spec/TransformSpec.lean: dot, cross, LenSpec, nrm, IsRot/IsFrame, axis rotations, Rodrigues' formula, alignZSpec",
                    "long double evaluation as the oracle of the measured rounding residue",
                    "fork()/waitpid and std::set_terminate as the observer of exception / terminate behaviour (harness/corr/c09_noexcept.cpp)"]
@@ -407,9 +472,9 @@ def run(chk):
         "the extractor compiles the headers as shipped (IMATH_NOEXCEPT not overridden); that a `.error` leaf of the model is an exception "
         "that reaches the caller in the shipped build is OBSERVED by harness/corr/c09_noexcept.cpp, not proved",
         "rounding: NOT proved; measured against a long double evaluation with bounds c*eps (partial)",
-        "Lean-side emitter validation (lean_tv) skips the 6 entries that call the opaque V3.length and is not run for tag c09up "
-        "(rotationMatrixWithUpDir, rotationMatrix): for those the emitted text is checked by the C++-side TV of the tree and by the "
-        "`_eq`/`_spec`/`_frame` theorems only",
+        "Lean-side emitter validation (lean_tv) runs for all 52 entries (opaque callees are evaluated by the real templates at exact "
+        "fractions), but on 3-8 (c09) / 6-12 (c09up) random rational inputs per entry: it does not reach the fallback leaves of the big "
+        "trees; the emitted text of those leaves is checked by the `_spec` equalities with the transcription specs only",
         "magnitudes: the theorems idealise length()==0 <=> v = 0 and exact products; overflow / underflow for long / short direction "
         "arguments is measured separately per function (residue-magnitudes:*; alignZAxisWithTargetDir rescales its arguments since 8e640b7)"]
     chk.rule = ("theorems: all current matrices (16 free entries), all parameter vectors, all angles, over any commutative ring / ordered field. "
@@ -440,6 +505,11 @@ def run(chk):
         troute.tv(chk, bins["sym_c09up"], "c09up", n, idx_deps=[leaf_idx, c09_idx])
         tv_reach(chk)
         troute.lean_tv(chk, bins["sym_c09"], "c09", index, n=8 if chk.thorough else 3, idx_deps=[leaf_idx])
+        # tag c09up: the opaque callees (alignZAxisWithTargetDir, Quat::setRotation, length) are evaluated by the REAL templates at exact
+        # fractions (Native::q in sym_c09up.cpp), so the emitted text of rotationMatrixWithUpDir / rotationMatrix is validated too
+        troute.lean_tv(chk, bins["sym_c09up"], "c09up", index2, n=12 if chk.thorough else 6, idx_deps=[leaf_idx, c09_idx])
+        throwing = sorted(d["name"] for d in index + index2 if d.get("throws") == "1")
+        chk.extra["entries_with_error_leaves"] = throwing
         for d in index[:4] + index[-3:] + index2:
             chk.sample({"entry": d["name"], "paths": d.get("paths")})
         index = index + index2
@@ -470,7 +540,7 @@ def run(chk):
                     state["out"] = run_residue(chk, bins["c09_residue"], 4000)[1]
                 for l in state["out"].split("\n"):
                     if l.startswith("RESIDUE-FAIL " + fn):
-                        mm = re.match(r"RESIDUE-FAIL ([^:]+):([^:]+):(\w+) (err/eps=\S+ > \S+) in=(.*)", l)
+                        mm = re.match(r"RESIDUE-FAIL (.+):([^:]+):(float|double) (err/eps=\S+ > \S+) in=(.*)", l)
                         if mm:
                             return {"key": "theorem:" + name, "found_by": "harness/corr/c09_residue (real code vs documented behaviour)",
                                     "check": mm.group(1), "input_class": mm.group(2), "element_type": mm.group(3), "error": mm.group(4),
@@ -483,7 +553,7 @@ def run(chk):
         lib.lake_build([m for m, _ in MODULES])
         for module, required in MODULES:
             chk.check_theorems(module, required=required, search=make_search(module))
-    noexcept_probe(chk)
+    noexcept_probe(chk, chk.extra.get("entries_with_error_leaves"))
     if bins.get("c09_residue"):
         residue(chk, bins["c09_residue"], 30000 if chk.thorough else 4000, state)
     if chk.thorough:
